@@ -123,9 +123,15 @@ def random_schema(rng, n=None, shape=None, redundant=False):
                 anc = ancestors_map(ents)
                 sup = [s for s in sup if not any(s in anc[t] for t in sup if t != s)]
         ents.append({"name": nm, "abstract": False, "supers": sup, "expr": None})
+    return decorate(rng, ents)
+
+
+def decorate(rng, ents, p_abstract=0.35):
+    """random SUPERTYPE OF expressions (all explicit / partly / all implicit), ABSTRACT flags, declaration order"""
     subs = subs_of(ents)
     for e in ents:
         ss = subs[e["name"]]
+        e["expr"], e["abstract"] = None, False
         if not ss:
             continue
         r = rng.random()
@@ -137,11 +143,39 @@ def random_schema(rng, n=None, shape=None, redundant=False):
             chosen = [s for s in ss if rng.random() < 0.7]
         if chosen:
             e["expr"] = random_expr(rng, chosen)
-        e["abstract"] = rng.random() < 0.35
-    # declaration order: random (EXPRESS allows forward references)
+        e["abstract"] = rng.random() < p_abstract
     order = list(ents)
     rng.shuffle(order)
     return order
+
+
+# topologies (child -> parents) of the directed stream: shapes on which single matcher statements decide the verdict
+DIRECTED = {
+    # an entity with supertypes under two different roots, the two sides asymmetric
+    "tworoots-asym": {"r1": [], "m": ["r1"], "r2": [], "d": ["m", "r2"]},
+    "tworoots-asym-leaves": {"r1": [], "m": ["r1"], "r2": [], "d": ["m", "r2"], "x": ["r1"], "y": ["r2"]},
+    "tworoots-mids": {"r1": [], "m": ["r1"], "r2": [], "n": ["r2"], "d": ["m", "n"]},
+    "tworoots-deep": {"r1": [], "m": ["r1"], "k": ["m"], "r2": [], "d": ["k", "r2"], "z": ["m"]},
+    # sub-supertypes (often ABSTRACT) with their own subtypes next to later siblings under an implicit ANDOR
+    "subsuper-sibling": {"item": [], "curve": ["item"], "line": ["curve"], "circle": ["curve"], "styled": ["item"]},
+    "subsuper-siblings": {"item": [], "curve": ["item"], "line": ["curve"], "circle": ["curve"], "styled": ["item"],
+                          "extra": ["item"]},
+    "two-subsupers": {"item": [], "curve": ["item"], "line": ["curve"], "circle": ["curve"], "surf": ["item"],
+                      "p": ["surf"], "q": ["surf"]},
+    "subsuper-chain": {"item": [], "curve": ["item"], "conic": ["curve"], "circle": ["conic"], "line": ["curve"],
+                       "styled": ["item"]},
+}
+
+
+def directed_schema(rng, shape):
+    """the topology `shape` with randomly permuted one-letter names (so every alphabetical sibling order occurs),
+    random expressions and ABSTRACT flags (ABSTRACT more often than in the random stream)"""
+    topo = DIRECTED[shape]
+    letters = list(NAMES[:len(topo)])
+    rng.shuffle(letters)
+    ren = dict(zip(topo, letters))
+    ents = [{"name": ren[n], "abstract": False, "supers": [ren[p] for p in ps], "expr": None} for n, ps in topo.items()]
+    return decorate(rng, ents, p_abstract=0.5)
 
 
 def render_schema(schema, name="c08"):
